@@ -42,7 +42,7 @@ def cases(tier, seed):
     n, length = (60, 8) if tier == "quick" else (3000, 14)
     for i in range(n):
         yield {"seed": seed, "idx": i, "length": length}
-    for i in range(57 if tier == "quick" else 400):
+    for i in range(40 if tier == "quick" else 400):
         yield {"kind": "rebind", "seed": seed, "idx": i}
 
 
@@ -262,6 +262,7 @@ REBIND_MAIN = """import twosigma.memento as m
 from vf.recorder import REC
 %(import_other)s
 FACTOR = %(f_main)d
+CL = %(cl)r
 
 def scale(x):
     return x %(op)s FACTOR
@@ -269,28 +270,28 @@ def scale(x):
 def scale2(x):
     return x %(op)s FACTOR %(op)s 2
 
-@m.memento_function
+@m.memento_function(cluster=CL)
 def report(x):
     REC.hit("report", x)
     return scale(x) + 1
 
-@m.memento_function
+@m.memento_function(cluster=CL)
 def report2(x):
     REC.hit("report2", x)
     return scale2(x) + 2
 
-@m.memento_function(auto_dependencies=False, dependencies=[report])
+@m.memento_function(cluster=CL, auto_dependencies=False, dependencies=[report])
 def declared(x):
     # (its only dependency is the declared one: nothing is detected from the body)
     REC.hit("declared", x)
     return report(x) + 3
 
-@m.memento_function
+@m.memento_function(cluster=CL)
 def total(x):
     REC.hit("total", x)
-    return report(x) + %(const)d
+    return report(x) + %(const)d + FACTOR + cfg.oscale(x)
 
-@m.memento_function
+@m.memento_function(cluster=CL)
 def viareg(x):
     # (reads a registry that holds memento functions, itself among them)
     REC.hit("viareg", x)
@@ -301,19 +302,25 @@ HANDLERS = {"viareg": viareg, "report": report}
 import %(pkg)s.other as cfg
 import %(pkg)s.other2 as cfg2
 
-@m.memento_function
+@m.memento_function(cluster=CL)
 def viaattr(x):
     REC.hit("viaattr", x)
     return cfg.scale(x) + cfg.FACTOR
 
-@m.memento_function
+@m.memento_function(cluster=CL)
 def twice(x):
     REC.hit("twice", x)
     if x < -1000:
         return cfg.later(x) + cfg2.later(x) + later(x)
     return x
 """
-REBIND_OTHER = """FACTOR = %(f_other)d
+REBIND_OTHER = """import twosigma.memento as m
+FACTOR = %(f_other)d
+CL = %(cl)r
+
+@m.memento_function(cluster=CL)
+def oscale(x):
+    return x + FACTOR
 
 def scale(x):
     return x %(op)s FACTOR
@@ -344,6 +351,8 @@ REBINDS = {  # statement executed in the main module, after versions were asked 
     "own_sibling": "scale = scale2",
     "attribute": "import %(pkg)s.other as _o\nscale = _o.scale",
     "variable_only": "FACTOR = FACTOR + 5",
+    # the variable of the same name in the other module (which a memento function of that module uses directly)
+    "variable_of_the_other_module": "cfg.FACTOR = cfg.FACTOR + 3",
     # several statements: every version is asked after each of them
     # ... a tracked variable becomes something memento cannot describe, then a plain value again
     "variable_to_an_opaque_object_and_back": ["FACTOR = object()", "FACTOR = 7"],
@@ -367,7 +376,7 @@ def later(x):
 def rebind_child(arg):
     root, pkg, how = arg["root"], arg["pkg"], arg["how"]
     sys.path.insert(0, root)
-    env.set_env(os.path.join(root, "env"), default_storage=env.mem_backend())
+    env.set_env(os.path.join(root, "env"), default_storage=env.mem_backend(), clusters={"named.cl": env.mem_backend()})
     main = importlib.import_module(pkg + ".main")
     # (a name may be bound to a plain function by the statement under test: only memento functions are asked)
     def ask(n):
@@ -389,7 +398,10 @@ def rebind_child(arg):
             if k + 1 < len(stmts):  # every version is asked between two statements
                 res.setdefault("between", []).append({n: ask(n) for n in ("report", "total", "viaattr", "twice", "declared", "viareg")
                                                       if hasattr(getattr(main, n), "version")})
-    for n in (["twice", "declared", "viareg", "total", "viaattr", "report"] if arg.get("order") else ["report", "viaattr", "total", "twice", "declared", "viareg"]):
+    asked = ["twice", "declared", "viareg", "total", "viaattr", "report"] if arg.get("order") else ["report", "viaattr", "total", "twice", "declared", "viareg"]
+    if arg.get("first") in asked:  # (whoever is asked first gets no help from another function's query)
+        asked = [arg["first"]] + [n for n in asked if n != arg["first"]]
+    for n in asked:
         if not hasattr(getattr(main, n), "version"):
             continue
         try:
@@ -410,7 +422,9 @@ def run_rebind(case):
     how = list(REBINDS)[case["idx"] % len(REBINDS)]
     pkg = "vp13r_%d_%d" % (case["seed"], case["idx"])
     params = {"f_main": rng.randint(2, 5), "f_other": rng.randint(6, 9), "op": rng.choice(["*", "+", "-"]), "const": rng.randint(1, 9),
-              "import_other": "", "pkg": pkg}
+              "import_other": "", "pkg": pkg,
+              # (every other scenario puts all functions into a named cluster: their names start with "<cluster>::")
+              "cl": "named.cl" if (case["idx"] // len(REBINDS)) % 2 else None}
     with env.Scratch() as sc:
         def write(root, tail):
             d = os.path.join(root, pkg)
@@ -429,9 +443,10 @@ def run_rebind(case):
         stmt_text = "\n".join(REBINDS[how]) if isinstance(REBINDS[how], list) else REBINDS[how]
         write(sc.path("fresh"), "\n" + stmt_text % {"pkg": pkg} + "\n")
         try:
+            first = {"variable_of_the_other_module": "total"}.get(how)
             live = procs.in_child(rebind_child, {"root": sc.path("live"), "pkg": pkg, "how": how, "live": True,
-                                                "call_first": rng.random() < 0.5, "order": rng.random() < 0.5})
-            fresh = procs.in_child(rebind_child, {"root": sc.path("fresh"), "pkg": pkg, "how": how})
+                                                "call_first": rng.random() < 0.5, "order": rng.random() < 0.5, "first": first})
+            fresh = procs.in_child(rebind_child, {"root": sc.path("fresh"), "pkg": pkg, "how": how, "first": first})
         except procs.ChildFailed as e:
             out["viol"].append({"sig": "running a re-binding scenario failed (%s)" % e.kind, "msg": str(e)[-800:]})
             out["obs"] = dict(out["obs"])
